@@ -428,6 +428,7 @@ def run_shard(spec):
     counters.update({"monitor_" + k: v for k, v in mgrmon.COUNTS.items()})
     counters["anchors_reached"] = dict(mgrmon.REACH)
     counters["assignments_value_compared"] = lockstep.STATS["assignments_compared"]
+    counters["queries_checked_read_only"] = lockstep.STATS.get("queries_checked", 0)
     return {"evaluations": counters.get("windows_checked", 0), "digests": sorted(digests), "samples": samples,
             "counters": counters, "violations": violations, "known": known}
 
